@@ -176,6 +176,7 @@ func (x *Exec) cover(st *State, what, pos string) {
 		ob.Name = fmt.Sprintf("%s@%d", ob.Name, n)
 	}
 	ob.Query = x.query(st, "false")
+	ob.Light = x.queryOpt(st, "false", true)
 	x.obs = append(x.obs, ob)
 }
 
